@@ -29,6 +29,8 @@ def driverLine (inp obs : List String) : Bool × Bool × String × String :=
   let script := evToks.filterMap parseEv
   let caps := capToks.map natTok
   let m := run script caps
+  -- the detection future went to sleep without a wake-up: the connection is never served
+  if obs.head? == some "stall" then (false, false, "C08/pending-without-wakeup", showObs m) else
   match parseObs obs with
   | some o => (decide (m = o), spec script o, (verdict script o).getD "-", showObs m)
   | none => (false, false, "C08/unparsable-observation", showObs m)
